@@ -25,11 +25,13 @@ Record state := {
   st_heap : list mailbox;              (* object id = creation index *)
   st_names : list (bytes * nat);       (* User.mailboxes *)
   st_prev : N;                         (* User.prevUidValidity *)
-  st_sel : list (option nat)           (* per session: the selected mailbox object *)
+  st_sel : list (option nat);          (* per session: the selected mailbox object *)
+  st_ro : list bool                    (* per session: MailboxView.readOnly of the selected view (set by
+                                          SELECT/EXAMINE; meaningful only while the session has a selection) *)
 }.
 
 Definition init (nsess : nat) : state :=
-  {| st_heap := []; st_names := []; st_prev := 0; st_sel := repeat None nsess |}.
+  {| st_heap := []; st_names := []; st_prev := 0; st_sel := repeat None nsess; st_ro := repeat false nsess |}.
 
 Fixpoint lookup (n : bytes) (l : list (bytes * nat)) : option nat :=
   match l with [] => None | (k, v) :: r => if bytes_eqb k n then Some v else lookup n r end.
@@ -53,9 +55,11 @@ Definition set_flags (fl : list bytes) (m : mmsg) : mmsg :=
   {| mm_uid := mm_uid m; mm_flags := fl; mm_time := mm_time m; mm_zone := mm_zone m; mm_buf := mm_buf m |}.
 
 Definition with_heap (s : state) (h : list mailbox) : state :=
-  {| st_heap := h; st_names := st_names s; st_prev := st_prev s; st_sel := st_sel s |}.
+  {| st_heap := h; st_names := st_names s; st_prev := st_prev s; st_sel := st_sel s; st_ro := st_ro s |}.
 Definition with_sel (s : state) (l : list (option nat)) : state :=
-  {| st_heap := st_heap s; st_names := st_names s; st_prev := st_prev s; st_sel := l |}.
+  {| st_heap := st_heap s; st_names := st_names s; st_prev := st_prev s; st_sel := l; st_ro := st_ro s |}.
+Definition with_ro (s : state) (l : list bool) : state :=
+  {| st_heap := st_heap s; st_names := st_names s; st_prev := st_prev s; st_sel := st_sel s; st_ro := l |}.
 
 (* ---- commands ---- *)
 Inductive store_op := StSet | StAdd | StDel.
@@ -346,6 +350,11 @@ Definition sel_of (s : state) (i : nat) : option nat :=
   match nth_error (st_sel s) i with Some o => o | None => None end.
 Definition set_sel (s : state) (i : nat) (o : option nat) : state :=
   with_sel s (update_nth i (fun _ => o) (st_sel s)).
+(* MailboxView.readOnly of session i's view (UserSession.Select: options.ReadOnly) *)
+Definition ro_of (s : state) (i : nat) : bool :=
+  match nth_error (st_ro s) i with Some b => b | None => false end.
+Definition set_ro (s : state) (i : nat) (b : bool) : state :=
+  with_ro s (update_nth i (fun _ => b) (st_ro s)).
 Definition upd_mb (s : state) (id : nat) (f : mailbox -> mailbox) : state :=
   with_heap s (update_nth id f (st_heap s)).
 
@@ -374,14 +383,14 @@ Definition step (s : state) (ic : nat * cmd) : option (state * result) :=
           let uv := st_prev s + 1 in
           let mb := {| mb_name := n; mb_uv := uv; mb_next := 1; mb_sub := false; mb_msgs := [] |} in
           Some ({| st_heap := st_heap s ++ [mb]; st_names := st_names s ++ [(n, length (st_heap s))];
-                   st_prev := uv; st_sel := st_sel s |}, ok [])
+                   st_prev := uv; st_sel := st_sel s; st_ro := st_ro s |}, ok [])
       end
   | CDelete n =>
       match lookup n (st_names s) with
       | None => Some (s, no (s2b "NONEXISTENT"))
       | Some _ =>
           Some ({| st_heap := st_heap s; st_names := unbind n (st_names s); st_prev := st_prev s;
-                   st_sel := st_sel s |}, ok [])
+                   st_sel := st_sel s; st_ro := st_ro s |}, ok [])
       end
   | CRename o n =>
       let n := trim_right_delim n in
@@ -393,7 +402,7 @@ Definition step (s : state) (ic : nat * cmd) : option (state * result) :=
           | None =>
               Some ({| st_heap := update_nth id (set_name n) (st_heap s);
                        st_names := unbind o (st_names s) ++ [(n, id)];
-                       st_prev := st_prev s; st_sel := st_sel s |}, ok [])
+                       st_prev := st_prev s; st_sel := st_sel s; st_ro := st_ro s |}, ok [])
           end
       end
   | CSubscribe n =>
@@ -440,16 +449,21 @@ Definition step (s : state) (ic : nat * cmd) : option (state * result) :=
           | None => Some (s0, {| r_data := pre; r_class := 1; r_code := CodeAtom (s2b "NONEXISTENT") |})
           | Some mb =>
               let fl := mailbox_flags mb in
-              Some (set_sel s i (Some id),
+              Some (set_ro (set_sel s i (Some id)) i examine,
                     okc (pre ++ [RSelect (seq_max mb) (mb_uv mb) (mb_next mb) fl (fl ++ [s2b "\*"])])
                         (CodeAtom (if examine then s2b "READ-ONLY" else s2b "READ-WRITE")))
           end
       end
   | CUnselect => in_selected s i (fun _ _ => Some (set_sel s i None, ok []))
   | CClose =>
-      in_selected s i (fun id mb => Some (set_sel (upd_mb s id (expunge_mb None)) i None, ok []))
+      (* handleUnselect: session.Expunge(w, nil), which MailboxView.Expunge turns into a no-op on a
+         read-only view, then Unselect *)
+      in_selected s i (fun id mb =>
+        if ro_of s i then Some (set_sel s i None, ok [])
+        else Some (set_sel (upd_mb s id (expunge_mb None)) i None, ok []))
   | CStore uid set op silent flags =>
       in_selected s i (fun id mb =>
+        if ro_of s i then Some (s, no_plain) else       (* MailboxView.Store: errReadOnly *)
         let ms := map_addressed uid set mb (store_flags op flags) in
         let mb' := set_msgs ms mb in
         let data :=
@@ -478,6 +492,7 @@ Definition step (s : state) (ic : nat * cmd) : option (state * result) :=
         end)
   | CMove uid set dest =>
       in_selected s i (fun id mb =>
+        if ro_of s i then Some (s, no_plain) else       (* UserSession.Move: errReadOnly *)
         match lookup dest (st_names s) with
         | None => Some (s, no (s2b "TRYCREATE"))
         | Some did =>
@@ -497,12 +512,17 @@ Definition step (s : state) (ic : nat * cmd) : option (state * result) :=
               end
         end)
   | CExpunge uids =>
-      in_selected s i (fun id mb => Some (upd_mb s id (expunge_mb uids), ok []))
+      (* MailboxView.Expunge: on a read-only view nil uids (EXPUNGE, and CLOSE) is a no-op, UID EXPUNGE is
+         refused *)
+      in_selected s i (fun id mb =>
+        if ro_of s i then Some (s, match uids with None => ok [] | Some _ => no_plain end)
+        else Some (upd_mb s id (expunge_mb uids), ok []))
   | CSearch uid ret keys =>
       in_selected s i (fun id mb => Some (s, ok [do_search mb uid ret keys]))
   | CFetch uid set o =>
       in_selected s i (fun id mb =>
-        let seen := existsb (fun p => negb (sc_peek (fst p))) (fo_sections o) in
+        (* MailboxView.Fetch: a read-only view never sets \Seen *)
+        let seen := negb (ro_of s i) && existsb (fun p => negb (sc_peek (fst p))) (fo_sections o) in
         let f := if seen then mark_seen else (fun m => m) in
         let mb' := set_msgs (map_addressed uid set mb f) mb in
         match all_some (map (fun sm => fetch_one o (fst sm) (snd sm)) (select_addressed uid set mb')) with
